@@ -571,3 +571,25 @@ func (ev *Event) ExpectedRow(b *fakechain.Block, logIndex int) Row {
 	}
 	return r
 }
+
+// ---------- trigger definitions ----------
+
+// TriggerDefinition builds the bytes of an event trigger definition with the
+// real EventTriggerDefinition.MarshalBytes: logs of contract whose topic 0
+// equals topic0 and, if minWord0 is non-nil, whose first data word is >= minWord0.
+func TriggerDefinition(contract common.Address, topic0 common.Hash, minWord0 *big.Int) []byte {
+	d := shutterservice.EventTriggerDefinition{
+		Contract: contract,
+		LogPredicates: []shutterservice.LogPredicate{{
+			LogValueRef:    shutterservice.LogValueRef{Offset: 0},
+			ValuePredicate: shutterservice.ValuePredicate{Op: shutterservice.BytesEq, ByteArgs: [][]byte{topic0.Bytes()}},
+		}},
+	}
+	if minWord0 != nil {
+		d.LogPredicates = append(d.LogPredicates, shutterservice.LogPredicate{
+			LogValueRef:    shutterservice.LogValueRef{Offset: 4},
+			ValuePredicate: shutterservice.ValuePredicate{Op: shutterservice.UintGte, IntArgs: []*big.Int{minWord0}},
+		})
+	}
+	return d.MarshalBytes()
+}
